@@ -414,13 +414,105 @@ Lemma nothing_left_running_model_level :
   (forall sh ls h, t_gate sh = true ->
      (nth_error ls h = Some HRun \/ nth_error ls h = Some HSend \/ nth_error ls h = Some HDone) ->
      nth_error (snd (run _ _ (tstep2 true) (sh, ls) [h; h])) h = Some HDone) /\
-  (forall ts pre, forallb f_initial ts = true ->
-     exists sched, forallb (fun t => negb (f_close_pending t))
-                     (snd (run _ _ (fstep false) (run _ _ (fstep false) (finit, ts) pre) sched)) = true).
+  (forall ts pre, forallb f_initial ts = true -> existsb f_is_closer ts = true ->
+     exists sched, forallb f_finished
+                     (snd (run _ _ (fstep false true) (run _ _ (fstep false true) (finit, ts) pre) sched)) = true).
 Proof.
   split; [|split].
   - intros spawns ts sched Hi s Hr Hc.
     destruct (start_close_all_schedules spawns ts sched Hi) as (_ & _ & H). exact (proj2 (proj2 (H Hr Hc))).
   - exact timeout_helper_always_finishes.
-  - intros ts pre Hi. exact (proj2 (close_completes_despite_stalled_writes ts pre Hi)).
+  - intros ts pre Hi Hc. exact (proj2 (close_completes_despite_stalled_writes ts pre Hi Hc)).
 Qed.
+
+(* ================================================================================================ *)
+(* J2. DisposeAll works on a snapshot: Register calls made while it runs                              *)
+(* ================================================================================================ *)
+Lemma skipn_nth_cons {A} (d : A) : forall (l : list A) i, i < length l -> skipn i l = nth i l d :: skipn (S i) l.
+Proof.
+  induction l as [|h t IH]; intros [|i] H; cbn in *; try lia; [reflexivity|]. apply IH. lia.
+Qed.
+
+Definition areg_ok (sh : ash) (t : apc) : Prop :=
+  match t with ARegDone id => In id (a_live sh) \/ In id (a_old sh) | AReg _ => True | _ => False end.
+
+Definition AInv (l0 : list nat) (s : ash * list apc) : Prop :=
+  let sh := fst s in
+  exists pc0 tl, snd s = pc0 :: tl /\ Forall (areg_ok sh) tl /\
+    match pc0 with
+    | ALoopStart => a_arr sh = [] /\ a_old sh = [] /\ a_disposed sh = [] /\ exists ext, a_live sh = l0 ++ ext
+    | ALoop i => a_arr sh = a_old sh /\ i <= length (a_old sh) /\ a_disposed sh = rev (skipn i (a_old sh)) /\ exists ext, a_old sh = l0 ++ ext
+    | ALoopDone => a_arr sh = a_old sh /\ a_disposed sh = rev (a_old sh) /\ exists ext, a_old sh = l0 ++ ext
+    | _ => False
+    end.
+
+Lemma ainv_step l0 s i : AInv l0 s -> AInv l0 (sys_step _ _ (astep false) s i).
+Proof.
+  destruct s as [sh ls]. unfold AInv. cbn [fst snd]. intros (pc0 & tl & -> & Hreg & Hpc).
+  unfold sys_step. cbn [fst snd]. destruct i as [|j].
+  - (* the dispose loop steps *)
+    cbn [nth_error upd_nth].
+    destruct pc0 as [|k| | |]; try contradiction.
+    + destruct Hpc as (Ha & Ho & Hd & ext & Hl). cbn [astep fst snd a_arr a_old a_live a_disposed].
+      exists (ALoop (length (a_live sh))), tl. split; [reflexivity|]. split.
+      * eapply Forall_impl; [|exact Hreg]. intros t. unfold areg_ok. cbn [a_live a_old]. destruct t; auto.
+        intros [H|H]; [right; exact H|rewrite Ho in H; destruct H].
+      * cbn [a_arr a_old a_disposed]. split; [reflexivity|]. split; [lia|]. split.
+        { rewrite skipn_all. cbn. exact Hd. }
+        exists ext. exact Hl.
+    + destruct Hpc as (Ha & Hk & Hd & Hext). destruct k as [|k]; cbn [astep fst snd].
+      * exists ALoopDone, tl. split; [reflexivity|]. split; [exact Hreg|]. split; [exact Ha|]. split; [|exact Hext].
+        rewrite Hd. cbn. reflexivity.
+      * assert (Hin : existsb (Nat.eqb (nth k (a_arr sh) 0)) (a_old sh) = true).
+        { rewrite Ha. apply existsb_exists. exists (nth k (a_old sh) 0). split; [apply nth_In; lia|apply Nat.eqb_refl]. }
+        rewrite Hin. cbn [fst snd a_arr a_old a_live a_disposed].
+        exists (ALoop k), tl. split; [reflexivity|]. split; [exact Hreg|]. cbn [a_arr a_old a_disposed].
+        split; [exact Ha|]. split; [lia|]. split; [|exact Hext].
+        rewrite Hd, Ha. rewrite (skipn_nth_cons 0 (a_old sh) k) by lia. cbn [rev]. reflexivity.
+    + cbn [astep fst snd]. exists ALoopDone, tl. auto.
+  - (* a Register thread steps *)
+    cbn [nth_error upd_nth]. destruct (nth_error tl j) as [x|] eqn:En; [|exists pc0, tl; auto].
+    assert (Hx : areg_ok sh x) by (eapply Forall_nth; eauto).
+    destruct x as [| | |id|id]; cbn in Hx; try contradiction; cbn [astep fst snd].
+    + (* AReg id *)
+      exists pc0, (upd_nth j (ARegDone id) tl). split; [reflexivity|]. split.
+      * apply Forall_upd.
+        -- eapply Forall_impl; [|exact Hreg]. intros t. unfold areg_ok. cbn [a_live a_old]. destruct t; auto.
+           intros [H|H]; [left; apply in_or_app; left; exact H|right; exact H].
+        -- cbn. left. apply in_or_app. right. left. reflexivity.
+      * cbn [a_arr a_old a_live a_disposed]. destruct pc0; try exact Hpc.
+        destruct Hpc as (Ha & Ho & Hd & ext & Hl). repeat (split; [assumption|]).
+        exists (ext ++ [id]). rewrite Hl, app_assoc. reflexivity.
+    + exists pc0, (upd_nth j (ARegDone id) tl). rewrite (upd_nth_same tl j _ En). auto.
+Qed.
+
+(* one DisposeAll and ANY number of Register calls (from inside a resource's Dispose or from other goroutines), ANY
+   schedule: when DisposeAll has finished it has disposed exactly its snapshot, each entry once, in reverse order; the snapshot
+   contains everything registered before it started; and no completed registration is lost: its resource was disposed by
+   this DisposeAll or is registered afterwards *)
+Theorem dispose_all_snapshot_all_schedules l0 regs sched :
+  let s := run _ _ (astep false) (ainit l0, ALoopStart :: map AReg regs) sched in
+  nth_error (snd s) 0 = Some ALoopDone ->
+  a_disposed (fst s) = rev (a_old (fst s)) /\ (exists ext, a_old (fst s) = l0 ++ ext) /\
+  (forall id, In (ARegDone id) (snd s) -> In id (a_live (fst s)) \/ In id (a_disposed (fst s))).
+Proof.
+  intros s Hdone.
+  assert (HI : AInv l0 s).
+  { unfold s. apply inv_all_schedules; [intros s0 i; apply ainv_step|].
+    exists ALoopStart, (map AReg regs). split; [reflexivity|]. split.
+    - rewrite Forall_forall. intros t Ht. apply in_map_iff in Ht. destruct Ht as (id & <- & _). exact I.
+    - cbn. repeat split; auto. exists []. symmetry. apply app_nil_r. }
+  destruct s as [sh ls]. destruct HI as (pc0 & tl & Hls & Hreg & Hpc). cbn [fst snd] in *. subst ls. cbn in Hdone.
+  inversion Hdone; subst pc0. destruct Hpc as (Ha & Hd & Hext).
+  split; [exact Hd|]. split; [exact Hext|].
+  intros id [H|Hin]; [discriminate|]. rewrite Forall_forall in Hreg. specialize (Hreg _ Hin). cbn in Hreg.
+  destruct Hreg as [H|H]; [left; exact H|right]. rewrite Hd. apply in_rev in H. rewrite <- in_rev. rewrite <- in_rev in H. exact H.
+Qed.
+
+(* the loop reads the manager's own backing array: a Register made while resource 2 is being disposed overwrites the slot
+   of resource 1, which is then never disposed and registered nowhere *)
+Lemma dispose_all_aliased_order_refuted :
+  exists sched,
+    let s := run _ _ (astep true) (ainit [1; 2], [ALoopStart; AReg 5]) sched in
+    snd s = [ALoopDone; ARegDone 5] /\ a_disposed (fst s) = [2] /\ a_live (fst s) = [5].
+Proof. exists [0; 0; 1; 0; 0]. vm_compute. auto. Qed.
